@@ -29,7 +29,8 @@ const (
 type Ctx struct {
 	P    *load.Program
 	R    *ob.Run
-	X    *an.Extractor
+	X    *an.Extractor // inlines module-local callees (depth 4)
+	XO   *an.Extractor // keeps every call opaque
 	Tier string
 }
 
@@ -61,7 +62,9 @@ func Properties() []string {
 
 // NewCtx builds a rule context.
 func NewCtx(p *load.Program, r *ob.Run, tier string) *Ctx {
-	return &Ctx{P: p, R: r, Tier: tier, X: &an.Extractor{InModule: load.InModule, MaxDepth: 4, NoInline: map[*ssa.Function]bool{}}}
+	return &Ctx{P: p, R: r, Tier: tier,
+		X:  &an.Extractor{InModule: load.InModule, MaxDepth: 4, NoInline: map[*ssa.Function]bool{}},
+		XO: &an.Extractor{InModule: load.InModule, MaxDepth: 0, NoInline: map[*ssa.Function]bool{}}}
 }
 
 func (c *Ctx) pos(p token.Pos) string { return c.P.Pos(p) }
